@@ -366,6 +366,21 @@ def run(prog, ctx):
     # ------------------------------------------------------------------ D6
     gp = prog.func(ES + ".get_points_in_areas_recursive")
     ctx.touch(gp)
+    gp_entry = gp
+    acc = None
+    # accumulator-passing style: the public recursion only delegates to a private helper that threads ONE result list through the
+    # recursion (`helper(area, points, acc=None)`); the helper then is the recursion that is judged
+    body_ = [st for st in gp.node.body if not (isinstance(st, ast.Expr) and isinstance(st.value, ast.Constant))]
+    if len(body_) == 1 and isinstance(body_[0], ast.Return) and isinstance(body_[0].value, ast.Call) and isinstance(body_[0].value.func, ast.Attribute) \
+            and isinstance(body_[0].value.func.value, ast.Name) and body_[0].value.func.value.id == gp.self_name:
+        hq = ES + "." + body_[0].value.func.attr
+        call_ = body_[0].value
+        if prog.has_func(hq) and hq != gp.qual and [tm_.id if isinstance(tm_, ast.Name) else None for tm_ in call_.args] == gp.params[1:3] and not call_.keywords:
+            hf = prog.func(hq)
+            if len(hf.params) == 4:
+                gp = hf
+                acc = hf.params[3]
+                ctx.touch(gp)
     tmg = Terms(gp.node, max_depth=0)
     pts = gp.params[2]
     problems = []
@@ -393,7 +408,9 @@ def run(prog, ctx):
             if not diff_ok:
                 problems.append("points handed to a child are not removed from the candidates of the following children")
             rec = [x for x in R.calls_in(loop, method=gp.name)]
-            if not (rec and len(rec[0].args) == 2 and tmg.term(rec[0].args[0]) == ("n", loop.target.id) and tmg.term(rec[0].args[1]) == ("n", cn)):
+            n_args = 2 if acc is None else 3
+            if not (rec and len(rec[0].args) == n_args and tmg.term(rec[0].args[0]) == ("n", loop.target.id) and tmg.term(rec[0].args[1]) == ("n", cn)
+                    and (acc is None or tmg.term(rec[0].args[2]) == ("n", acc))):
                 problems.append("the recursion does not descend into the child with exactly its contained points")
         for n in ast.walk(loop):
             if isinstance(n, ast.Break):
@@ -405,6 +422,13 @@ def run(prog, ctx):
                     problems.append("the child loop is left early although points remain")
     # leaf case returns the area with all points it was given
     leaf = [r for r in R.return_paths(gp)[0] if tmg.term(r.ast.value) == ("list", ("tuple", ("n", gp.params[1]), ("n", pts)))]
+    if acc is not None:
+        # the leaf appends (area, points) to the shared result list, which every path returns
+        apps = [x for x in R.calls_in(gp.node, method="append") if isinstance(x.func.value, ast.Name) and x.func.value.id == acc and len(x.args) == 1
+                and tmg.term(x.args[0]) == ("tuple", ("n", gp.params[1]), ("n", pts)) and not R.enclosing_loops(x)]
+        rets_acc = R.return_paths(gp)
+        all_acc = bool(rets_acc[0]) and not rets_acc[1] and not rets_acc[2] and all(tmg.term(r.ast.value) == ("n", acc) for r in rets_acc[0])
+        leaf = apps if all_acc else []
     if not leaf:
         problems.append("a leaf does not return (area, points)")
     # the public entry computes the assignment from the CURRENT tree on every call: it is the recursion started at self.root_cell with
@@ -412,9 +436,9 @@ def run(prog, ctx):
     ga = prog.func(ES + ".get_points_assignement_to_areas")
     ctx.touch(ga)
     tga = Terms(ga.node)
-    want_ret = ("call", ("a", ("n", ga.self_name), gp.name), (("a", ("n", ga.self_name), "root_cell"), ("n", ga.params[1])), ())
+    want_ret = ("call", ("a", ("n", ga.self_name), gp_entry.name), (("a", ("n", ga.self_name), "root_cell"), ("n", ga.params[1])), ())
     rets_ = R.return_paths(ga)
-    reads_ = {a_ for a_ in R.attr_reads(ga.node, ga.self_name)} - {"root_cell", gp.name}
+    reads_ = {a_ for a_ in R.attr_reads(ga.node, ga.self_name)} - {"root_cell", gp_entry.name}
     stores_ = {s_.attr for s_ in R.self_stores(ga)}
     ok_entry = bool(rets_[0]) and not rets_[1] and not rets_[2] and all(tga.term(r_.ast.value) == want_ret for r_ in rets_[0]) and not reads_ and not stores_
     ctx.check(ok_entry, "C07.D6", R.key_of(ga, "assignment-from-current-tree"), ga.loc(),
